@@ -10,6 +10,7 @@ import AnonCreds.Model.Issue
 import AnonCreds.Model.Codecs
 import AnonCreds.Model.Membership
 import AnonCreds.Model.Create
+import AnonCreds.Model.Lin
 /-
 Line-protocol driver: one request per line on stdin, one reply per line on stdout.
 Unknown or malformed requests answer `bad-op` (never a default value).
@@ -535,6 +536,31 @@ def createOp (toks : List String) : Option String :=
     | _, _ => none
   | _ => none
 
+/-- blind signing context: the issuer's recomputation over opaque generators (coordinates over the
+bases `[Y_0 … Y_{n-1}] ++ extra ++ [C]` given as compressed points) -/
+def blindOp (toks : List String) : Option String :=
+  open AC.Sigma in
+  match toks with
+  | ["bl.verify", n, known, nExtra, proofs, challenge, bases] =>
+    match n.toNat?, natsOf? known, nExtra.toNat?, listOf? frOf? proofs, frOf? challenge with
+    | some n, some known, some nExtra, some proofs, some c =>
+      let bs := if bases = "-" then [] else bases.splitOn ","
+      let d := n + nExtra + 1
+      if bs.length ≠ d then none else
+      let ys := (List.range n).map (Lin.unit d)
+      let extra := (List.range nExtra).map fun j => Lin.unit d (n + j)
+      let ctx : BlindCtx Fr Lin := ⟨Lin.unit d (n + nExtra), c, proofs⟩
+      -- the hash comparison is the real code's; the model reports the shape decision and the recomputed point
+      let shape := blindVerify ys known extra ctx (fun _ => true)
+      some (match shape with
+        | none => "err"
+        | some false => "false"
+        | some true =>
+          let r := Lin.coords d (blindRecommit ys known extra ctx)
+          "@lin(" ++ ";".intercalate ((bs.zip r).map fun (b, k) => b ++ ":" ++ frHex k) ++ ")")
+    | _, _, _, _, _ => none
+  | _ => none
+
 def answer (d : DState) (line : String) : DState × String :=
   let toks := (line.trimAscii.toString.splitOn " ").filter (· ≠ "")
   match claimsOp toks with
@@ -568,6 +594,9 @@ def answer (d : DState) (line : String) : DState × String :=
   | some r => (d, r)
   | none =>
   match createOp toks with
+  | some r => (d, r)
+  | none =>
+  match blindOp toks with
   | some r => (d, r)
   | none =>
   match regOp d toks with
